@@ -28,7 +28,7 @@ from harness import common
 from harness.translate import gen as G_
 
 PROPERTY = "C14"
-LEAN_MODULES = ["SigpyVerif.Props.C14"]
+LEAN_MODULES = ["SigpyVerif.Props.C14", "SigpyVerif.Props.C14Cplx", "SigpyVerif.Props.C14Join", "SigpyVerif.Props.C14Power"]
 THEOREMS = ["SigpyVerif.C14." + t for t in [
     "select_default", "select_named", "rejects_iff", "select_total",
     "obj_expand", "cgArgs_sys", "cgArgs_rhs", "cgSys_cgRhs_eq_normal", "lin_zero_of_quad_nonneg", "cg_normal_eq",
@@ -42,6 +42,21 @@ THEOREMS = ["SigpyVerif.C14." + t for t in [
     "hessian_quad", "gm_convex_grad", "default_steps_gm", "pdhgArgs_eig_noG", "pdhgArgs_eig_G",
     "default_steps_pdhg_primal_noG", "default_steps_pdhg_primal_G", "default_steps_pdhg_dual_noG",
     "default_steps_pdhg_dual_G", "default_steps",
+    # complex data (Props/C14Cplx.lean): transfer lemma + the theorems over 𝕜 = ℝ or ℂ
+    "reInner_complex", "isAdj_restrict", "real_smul_eq", "restrict_coe", "cgArgs_sys_rc", "cgArgs_rhs_rc",
+    "cgSys_cgRhs_eq_normal_rc", "obj_expand_rc", "cg_normal_eq_rc", "cg_unique_minimiser_rc", "gm_gradient_rc",
+    "gm_fixed_point_iff_minimiser_rc", "isKKTK_iff", "kkt_is_minimiser_rc", "pdhg_fixed_point_kkt_noG_rc",
+    "pdhg_fixed_point_kkt_G_rc", "admm_fixed_point_kkt_noG_rc", "admm_fixed_point_kkt_G_rc", "default_steps_gm_rc",
+    "cg_unique_minimiser_complex", "gm_fixed_point_iff_minimiser_complex",
+    # end-to-end joins with C12 / C13 (Props/C14Join.lean)
+    "cgSysK_apply", "cgSysK_eq", "cgSysK_symm", "cgSysK_quad", "cgSysK_psd", "pd_of_reg_or_inj", "cgSysK_hpd",
+    "cg_npd_false_of_regular", "cg_route_reaches_minimiser", "cg_route_psd_partial", "gm_route_rate",
+    "ista_descent_relaxed", "pdStep_both_pos", "proxfc_data_proxOf", "pdhg_route_fejer_noG_partial",
+    # the power method behind `max_eig` (Props/C14Power.lean, generated step Gen/C14Power.lean)
+    "pm_update_iter", "pm_iter_counts", "pm_done_iff", "maxEig_passes", "pm_step", "pm_zero", "pm_unit",
+    "sq_norm_le_of_symm", "pm_nondegenerate", "pm_estimate_ge_rayleigh", "pm_mono_step", "psd_cauchy_schwarz",
+    "opnorm_le_of_rayleigh", "pm_estimate_le_lmax", "pm_estimate_mono", "pm_estimate_rayleigh_sandwich",
+    "maxeig_default_alpha_gap",
 ]]
 
 SOLVERS = ["ConjugateGradient", "GradientMethod", "PrimalDualHybridGradient", "ADMM"]
@@ -49,7 +64,7 @@ SHORT = {"ConjugateGradient": "cg", "GradientMethod": "gm", "PrimalDualHybridGra
 
 
 def translate(ctx):
-    G_.regenerate(ctx, ["C14Select", "C14Setup"])
+    G_.regenerate(ctx, ["C14Select", "C14Setup", "C14Power"])
 
 
 # ---- rationals -----------------------------------------------------------------------------------
@@ -723,17 +738,132 @@ def stream_obj(ctx, ncases):
     ctx.oblige("correspondence:C14.objective", "correspondence", bad == 0, "%d disagreements" % bad)
 
 
+def sym_psd(rng, n, general=False):
+    """small dyadic matrix: B^T B + c I (symmetric positive definite), or a general one"""
+    while True:
+        B = [[Fr(rng.randint(-3, 3), 2) for _ in range(n)] for _ in range(n)]
+        if general:
+            if any(any(t != 0 for t in r) for r in B):
+                return B
+            continue
+        c = Fr(rng.choice([0, 1, 2]), 2)
+        T = [[sum(B[k][i] * B[k][j] for k in range(n)) + (c if i == j else 0) for j in range(n)] for i in range(n)]
+        if any(T[i][i] != 0 for i in range(n)):
+            return T
+
+
+def stream_power(ctx, ncases):
+    """the real `alg.PowerMethod` (built directly, or the one inside a real `app.MaxEig`) driven update by update vs the
+    GENERATED `Gen.C14.pmUpdate` (rational, sqrt to 2^-64).  Every update is compared ONE STEP AT A TIME from the real
+    object's own state before the update (a whole-run comparison would be a false alarm: when the start vector is
+    almost orthogonal to the dominant eigenvector, floating-point rounding re-introduces that component and the float
+    run and the exact run separate by (lambda_1/lambda_2)^k).  Counters / done() / the default budget / what `run()`
+    returns are compared on the whole run (they do not depend on the numbers)."""
+    import sigpy.alg as algmod
+    import sigpy.app as appmod
+    from sigpy import linop, util
+    rng = ctx.rng
+    bad = 0
+    for i in range(ncases):
+        n = rng.choice([2, 3, 4])
+        general = i % 4 == 3
+        T = sym_psd(rng, n, general)
+        Tn = np.array([[float(t) for t in r] for r in T])
+        viaapp = i % 2 == 1
+        iters = rng.choice([1, 2, 3, 5, 8, 30]) if not viaapp else rng.choice([0, 1, 2, 5, 30, None])
+        extra = {}
+        if viaapp:
+            A = linop.MatMul([n, 1], Tn)
+            seed = rng.randint(0, 2 ** 31 - 1)
+            np.random.seed(seed)
+            x0 = np.array(util.randn([n, 1], dtype=np.float64)).copy()
+            kw = {} if iters is None else {"max_iter": iters}
+            np.random.seed(seed)
+            a = appmod.MaxEig(A, dtype=np.float64, show_pbar=False, **kw)
+            np.random.seed(seed)
+            a2 = appmod.MaxEig(A, dtype=np.float64, show_pbar=False, **kw)
+            if not np.array_equal(np.asarray(a.x), x0):
+                ctx.oblige("correspondence:C14.power.seed", "correspondence", False, "MaxEig start vector is not util.randn(A.ishape) under the same seed")
+                return
+            pm = a.alg
+            mi = int(pm.max_iter)
+            extra = dict(run_out=float(a2.run()), run_iter=int(a2.alg.iter), max_iter=mi, norm_func=pm.norm_func is None)
+        else:
+            A = linop.MatMul([n, 1], Tn) if i % 3 else (lambda v, Tn=Tn: Tn @ v)
+            x0 = np.array([[float(Fr(rng.randint(-6, 6), 2))] for _ in range(n)])
+            pm = algmod.PowerMethod(A, x0.copy(), max_iter=iters)
+            mi = iters
+        ests, xs_, its, dns, lines = [], [], [], [], []
+        mat = fvecs(T)
+        degenerate = not np.any(Tn @ x0)
+        while not pm.done() and not degenerate:
+            xb = np.ravel(np.asarray(pm.x)).copy()
+            if not np.all(np.isfinite(xb)) or not np.any(Tn @ xb):
+                degenerate = True
+                break
+            pm.update()
+            ests.append(float(pm.max_eig))
+            xs_.append(np.ravel(np.asarray(pm.x)).tolist())
+            its.append(int(pm.iter))
+            dns.append(bool(pm.done()))
+            lines.append("C14 power n=%d M=%s x0=%s iters=1 mi=%d" % (n, mat, fvec([Fr(float(t)) for t in xb]), mi))
+        if degenerate or not (np.all(np.isfinite(ests)) and all(np.all(np.isfinite(v)) for v in xs_)):
+            continue   # a division by zero (T x = 0): outside the modelled domain
+        steps = len(ests)
+        lines.append("C14 power n=%d M=%s x0=%s iters=%d mi=%d" % (n, mat, fvec([Fr(float(t)) for t in np.ravel(x0)]), steps, mi))
+        rs = ctx.driver(lines)
+        impl = dict(est=ests, x=xs_, iter=its, done=dns, final=float(pm.max_eig), **extra)
+        case = dict(kind="power", T=[[fs(t) for t in r_] for r_ in T], x0=np.ravel(x0).tolist(), iters=iters, viaapp=viaapp)
+        ok = all(r.startswith("ok ") for r in rs)
+        model = rs[-1][:300]
+        if ok:
+            mest, mx = [], []
+            for r in rs[:-1]:
+                k = kvs(r)
+                mest.append(float(Fr(k["est"])))
+                mx.append([float(t) for t in pvecs(k["x"])[0]])
+            k = kvs(rs[-1])
+            mit = [] if k["iter"] == "-" else [int(t) for t in k["iter"].split(",")]
+            mdn = [] if k["done"] == "-" else [t == "1" for t in k["done"].split(",")]
+            model = dict(est=mest, x=mx, iter=mit, done=mdn, default=int(k["def"]), out_is_inf=k["out"] == "inf")
+            ok = (mit == its and mdn == dns and
+                  all(abs(a_ - b_) <= 1e-9 * max(1.0, abs(b_)) for a_, b_ in zip(ests, mest)) and
+                  all(abs(a_ - b_) <= 1e-9 for u, v in zip(xs_, mx) for a_, b_ in zip(u, v)) and
+                  (steps > 0) == (not model["out_is_inf"]) and steps == max(mi, 0))
+            if ok and viaapp:
+                ok = (extra["run_iter"] == steps and extra["norm_func"] and
+                      (iters is not None or mi == model["default"]) and
+                      ((steps == 0 and math.isinf(extra["run_out"])) or extra["run_out"] == impl["final"]))
+        moved = len(ests) >= 2 and abs(ests[-1] - ests[0]) > 1e-6
+        ctx.case(("power", json.dumps(case, sort_keys=True)), nontrivial=bool(moved),
+                 sample=dict(request=lines[0][:300] if lines else "", model=str(model)[:300], impl=str(impl)[:300]))
+        ctx.count("power")
+        if not ok:
+            bad += 1
+            ctx.disagree("power", case, impl, model)
+    ctx.oblige("correspondence:C14.power", "correspondence", bad == 0, "%d disagreements" % bad)
+
+
 def correspond(ctx):
     ctx.rule = ("cases = one configuration of the option cross product {solver} x {lamda=0,>0} x {z None/array} x "
                 "{proxg None/L1Reg/L2Reg/BoxConstraint} x {G None/dense/FiniteDifference} x {P/alpha/tau/sigma/rho given or "
                 "defaulted} x {x given or not} on a small dyadic-rational instance with A a dense MatMul, a diagonal "
                 "Multiply, Identity, Reshape or Multiply-by-1; distinct by the full case; non-trivial = the real "
-                "constructor accepted it (rejected combinations are counted separately)")
+                "constructor accepted it (rejected combinations are counted separately); power stream: small dyadic symmetric PSD "
+                "(B^T B + c I) or general matrices, PowerMethod (built directly from a dyadic start vector, or the one inside a real "
+                "MaxEig with its seeded util.randn start vector) compared update by update from the real object's own state, "
+                "max_iter in {0,1,2,3,5,8,30,default}; non-trivial = the estimate moves between updates")
     ctx.assumptions += [
         "the solver classes (ConjugateGradient, GradientMethod, PrimalDualHybridGradient, ADMM, PowerMethod) are taken as "
         "given (C12/C13/C15); C14's theorems are about what LinearLeastSquares hands to them",
-        "A.N is A^H A and A.H is the adjoint (C01/C04); theorems are over real inner-product spaces, complex data is "
-        "covered by the search only",
+        "A.N is A^H A and A.H is the adjoint (C01/C04); theorems hold over real AND complex inner-product spaces "
+        "(Props/C14Cplx.lean: transfer lemma isAdj_restrict, complex space = real space with re<.,.>); the executable model "
+        "and the correspondence use real (rational) data, complex data on the real code is exercised by the search",
+        "end-to-end joins with C12/C13 (Props/C14Join.lean) are in exact arithmetic; the PDHG route is joined in part "
+        "(pdhg_route_fejer_noG_partial: no G, lamda > 0, default tau; primal-prox and saddle hypotheses remain); accelerated "
+        "PDHG variants are outside C13's theorems",
+        "MaxEig / PowerMethod: the step is translator-generated (Gen/C14Power.lean) and compared with the real classes; the "
+        "theorems (estimate <= lambda_max, monotone) need a Hermitian PSD operator and T x0 != 0; the start vector is random",
         "floating point: the model is exact rational arithmetic; sqrt (Nesterov t, PDHG theta) is a 2^-64 approximation in "
         "the executable machines; the power-method estimate of the largest eigenvalue is an input of the model's step rule",
     ]
@@ -742,6 +872,7 @@ def correspond(ctx):
     stream_setup(ctx, 300 if q else 2000)
     stream_run(ctx, 160 if q else 1200)
     stream_obj(ctx, 60 if q else 400)
+    stream_power(ctx, 60 if q else 400)
 
 
 # ---- the property's own oracle -------------------------------------------------------------------
@@ -954,6 +1085,52 @@ def cplx_case(rng):
     return c
 
 
+def observe_power_gap(ctx, ncases):
+    """OBSERVATION (not part of the property): how far the real default step `alpha = 1/MaxEig(...)` exceeds `1/lambda_max`
+    (Props/C14Power.lean: the power method under-estimates), and whether an un-accelerated GradientMethod update of the
+    real app ever increases the documented objective because of it (C13's `ista_descent` needs alpha*L <= 1;
+    `ista_descent_relaxed` shows descent survives up to alpha*L <= 2)."""
+    rng = ctx.rng
+    worst, over, incr, worst_incr, runs = 1.0, 0, 0, 0.0, 0
+    for _ in range(ncases):
+        c = gen_case(rng, solver="GradientMethod", force=dict(akind="matmul", gkind=None,
+                                                               prox=rng.choice([None, "l1", "l2"])))
+        if _ % 2:   # directed: nearly equal top eigenvalues, where 30 power iterations are visibly short of lambda_max
+            c = gen_case(rng, solver="GradientMethod", force=dict(akind="diag", gkind=None, prox=rng.choice([None, "l1"]), n=4))
+            d = [Fr(2), Fr(rng.choice([255, 254, 252]), 128), Fr(rng.choice([253, 250, 248]), 128), Fr(1)]
+            c["A"] = [[d[i] if i == j else Fr(0) for j in range(4)] for i in range(4)]
+        c["alpha"], c["acc"], c["x0"] = None, False, None
+        try:
+            b = build(c)
+            np.random.seed(c["seed"] % (2 ** 31))
+            a = make_app(c, b, 60)
+        except Exception:
+            continue
+        A, Gd = smooth_parts(c, b)
+        lam = float(F(c["lam"]))
+        lmax = float(np.linalg.eigvalsh(A.conj().T @ A + lam * np.eye(c["n"]))[-1])
+        ratio = float(a.alg.alpha) * lmax
+        runs += 1
+        worst = max(worst, ratio)
+        over += ratio > 1 + 1e-12
+        yv, zv = b.y.copy().ravel(), None if b.z is None else b.z.copy().ravel()
+        prev, _ = objective_value(c, A, Gd, yv, zv, np.asarray(a.x))
+        for _k in range(60):
+            a.alg.update()
+            cur, _ = objective_value(c, A, Gd, yv, zv, np.asarray(a.x))
+            if cur > prev + 1e-10 * max(1.0, abs(prev)):
+                incr += 1
+                worst_incr = max(worst_incr, cur - prev)
+            prev = cur
+    ctx.counts["power-gap:runs"] = runs
+    ctx.counts["power-gap:alpha>1/L"] = int(over)
+    ctx.counts["power-gap:objective-increases"] = int(incr)
+    ctx.notes.append("observation (power-method gap, real code, alpha=None, accelerate=False, %d runs x 60 updates): "
+                     "alpha*lambda_max exceeded 1 in %d runs, worst 1+%.3e (hypothesis alpha*L<=1 of C13.ista_rate/ista_descent "
+                     "fails there; ista_descent_relaxed needs <=2); objective increases observed: %d (worst %.3g)"
+                     % (runs, over, worst - 1.0, incr, worst_incr))
+
+
 def search(ctx, budget):
     rng = ctx.rng
     # 1. the disagreeing cases first
@@ -962,6 +1139,16 @@ def search(ctx, budget):
         if "case" in cc:
             st = oracle(ctx, cc["case"], "disagreement")
             ctx.count("oracle:" + st)
+    if any(d["stream"] == "power" for d in ctx.disagreements):
+        # the power method disagrees with its model: the set-ups that divide by MaxEig's result (default alpha / tau)
+        for i in range(int(40 * budget)):
+            c = gen_case(rng, solver=["GradientMethod", "PrimalDualHybridGradient"][i % 2])
+            c["alpha"], c["tau"], c["sigma"] = None, None, None
+            if len(ctx.failures) >= 8:
+                break
+            st = oracle(ctx, c, "disagreement")
+            ctx.count("oracle:" + st)
+    observe_power_gap(ctx, int(12 * budget))
     # 2. budgeted search over the cross product
     n = int(300 * budget)
     for i in range(n):
